@@ -160,6 +160,58 @@ func c04Scenarios(tier string) []*Scenario {
 	vic2.Restart = "exit_on_failure"
 	add([]GNode{eof, vic2})
 	add([]GNode{eof, vic, vic2c()})
+	// trigger kind x victim kind grid: the code must always be that of the trigger
+	{
+		trig := func(kind string) []GNode {
+			switch kind {
+			case "eof3":
+				n := fail("a", 3)
+				n.Restart = "exit_on_failure"
+				return []GNode{n}
+			case "eoe0":
+				n := ok("a")
+				n.ExitOnEnd = true
+				return []GNode{n}
+			case "eoe5":
+				n := fail("a", 5)
+				n.ExitOnEnd = true
+				return []GNode{n}
+			default: // "eos": a is skipped because r fails
+				n := withDeps(ok("a"), map[string]string{"r": cSucc})
+				n.ExitOnSk = true
+				return []GNode{fail("r", 7), n}
+			}
+		}
+		vict := func(kind string) []GNode {
+			switch kind {
+			case "eoe":
+				n := d("v")
+				n.ExitOnEnd = true
+				return []GNode{n}
+			case "eof":
+				n := d("v")
+				n.Restart = "exit_on_failure"
+				return []GNode{n}
+			case "eos":
+				// a pending dependent that is skipped by the shutdown of its dependency
+				n := withDeps(ok("v"), map[string]string{"w": cSucc})
+				n.ExitOnSk = true
+				return []GNode{d("w"), n}
+			case "eos-healthy":
+				n := withDeps(ok("v"), map[string]string{"w": cLogReady})
+				n.ExitOnSk = true
+				wn := d("w")
+				wn.ReadyLine = true
+				return []GNode{wn, n}
+			}
+			return []GNode{d("v")}
+		}
+		for _, tk := range []string{"eof3", "eoe0", "eoe5", "eos"} {
+			for _, vk := range []string{"plain", "eoe", "eof", "eos", "eos-healthy"} {
+				add(append(trig(tk), vict(vk)...))
+			}
+		}
+	}
 	// exit_on_skipped
 	sk := withDeps(ok("b"), map[string]string{"a": cSucc})
 	sk.ExitOnSk = true
